@@ -156,7 +156,48 @@ def _stmt_helper(h):
         return body, None
     if len(rets) == 1 and body[-1] is rets[0]:
         return body[:-1], rets[0].value
+    # guard-clause returns (`if c: return A` ... `return B`): read as the single-exit form `if c: r = A else: ...; r = B`.
+    # Only when every return is the last statement of a top-level `if` body without `else` (recursively) or the final
+    # statement, and all return a value.
+    single = _single_exit_form(body)
+    if single is not None:
+        return single, ast.Name(id=_RET, ctx=ast.Load())
     return None, None
+
+
+_RET = '_xrsa_ret'
+
+
+def _single_exit_form(body):
+    if not body or not isinstance(body[-1], ast.Return) or body[-1].value is None:
+        return None
+
+    def conv(stmts):
+        out = []
+        for k, s_ in enumerate(stmts):
+            if isinstance(s_, ast.Return):
+                if k != len(stmts) - 1 or s_.value is None:
+                    return None
+                out.append(ast.copy_location(ast.Assign(targets=[ast.Name(id=_RET, ctx=ast.Store())], value=s_.value), s_))
+                return out
+            if isinstance(s_, ast.If) and not s_.orelse and s_.body and isinstance(s_.body[-1], ast.Return) and \
+                    not any(isinstance(x, ast.Return) for b_ in s_.body[:-1] for x in ast.walk(b_)):
+                then = conv(s_.body)
+                rest = conv(stmts[k + 1:])
+                if then is None or rest is None:
+                    return None
+                new = ast.copy_location(ast.If(test=s_.test, body=then, orelse=rest), s_)
+                out.append(new)
+                return out
+            if any(isinstance(x, ast.Return) for x in ast.walk(s_)):
+                return None
+            out.append(s_)
+        return None
+    res = conv(list(body))
+    if res is not None:
+        for n_ in res:
+            ast.fix_missing_locations(n_)
+    return res
 
 
 class _Inliner:
